@@ -85,6 +85,39 @@ def run(run, replay=None):
                   nontrivial=len(h.trees) >= 3)
         if n in (2, 250):
             run.sample({'live_trees': len(h.trees), 'steps': [(e['k'], e['tid']) for e in h.ev]})
+    # twins: two trees with EQUAL content (fresh, unshared values) go through every operation that derives
+    # state (generate_stats, serialise, parse); then one of them is changed in place at every position
+    for n in range(60 if quick else 1500):
+        seed = rng.randrange(1 << 30)
+        h = domdriver.History(cat, shared_reader=True, shared_writer=True)
+        a = domgen.build_tree(h, random.Random(seed), via_attrs=True)
+        b = domgen.build_tree(h, random.Random(seed), via_attrs=True)
+        for t in (a, b):
+            for ci, ch in enumerate(h.trees[t - 1].changes, 1):
+                for fi, f in enumerate(ch.files, 1):
+                    if rng.random() < 0.8:
+                        h.set(t, ci, fi, 'diff', bytes(domgen.STAT_DIFFS[(ci + fi + seed) % 3]))
+                        h.opt(t, ci, fi, 'diff', 'type', delete=True)
+        h.stats(a)
+        h.stats(b)
+        e = h.ser(a)
+        if e['status'] == 'ok' and rng.random() < 0.5:
+            h.parse(bytes(e['bytes']))
+            h.stats(len(h.trees))
+        victim = rng.choice([a, b])
+        t = h.trees[victim - 1]
+        for ci in range(0, len(t.changes) + 1):
+            for fi in range(0, (len(t.changes[ci - 1].files) if ci else 0) + 1):
+                r = rng.random()
+                if r < 0.6:
+                    h.mut2(victim, ci, fi, 'stats', *rng.choice([('insertions', 99), ('custom', 'x'), ('lines changed', 7)]))
+                elif fi:
+                    h.set(victim, ci, fi, 'diff', bytes(domgen.STAT_DIFFS[(seed + ci) % 4]))
+                    h.stats(victim)
+        h.stats(rng.choice([a, b]))
+        h.cmp(a, b)
+        traces.append(h.trace(len(traces), CHK))
+        run.count(('twins', seed), nontrivial=True)
     # histories enumerated / walked by TLC (Gen_Dom), concretised against the real trees
     from harness import gen
     behs = gen.behaviours('Gen_Dom', {'MaxLen': 3, 'MaxTrees': 2, 'NAttr': 2, 'NVal': 1}, run=run) if not quick else []
